@@ -173,11 +173,7 @@ func runC03(r *Run) {
 		"from the enforcement height on a receive must be made by the account the send was addressed to")
 
 	// path shape
-	r.MustPass("vm.(*Supervisor).applyBlock", ".AccountBlock", "no block is executed or packed without passing the block verifier")
-	r.MustPass("vm.(*Supervisor).applyBlock", "vm.(*VM).applyBlock", "no transaction is produced without executing the block against its context")
-	r.MustPass("vm.(*Supervisor).applyBlock", "vm.(*Supervisor).packBlock", "the transaction handed out is the verified one")
-	r.MustPass("vm.(*Supervisor).packBlock", ".AccountBlockTransaction", "hash/signature/producer/descendant checks run on every transaction")
-	r.MustPass("vm.(*Supervisor).ApplyBlock", "vm.(*Supervisor).applyBlock", "ApplyBlock has no path around applyBlock")
+	acceptancePathRules(r)
 	r.DefersRecover("vm.(*Supervisor).applyBlock", "panics inside verifier/VM (nil amount, nil lookup) must reject, not crash")
 	r.Has("verifier.(*accountBlockTransactionVerifier).descendantBlocks", "store new(verifier.accountBlockVerifier).block = $tb.DescendantBlocks[(iter+1)]", "each descendant is the block checked")
 	r.Has("verifier.(*accountVerifier).AccountBlock", "store new(verifier.accountBlockVerifier).block = a0", "the verified block is the submitted one")
@@ -194,4 +190,14 @@ func runC03(r *Run) {
 	// K1: constructors of transactions and feeders of the pool
 	r.WhoConstructs("chain/nom", "AccountBlockTransaction", []string{"vm.(*Supervisor).packBlock", "chain/genesis.wrap", "chain.(*accountPool).rebuild", "chain/nom.*"},
 		"a transaction object is proof of verification for the pool: only the supervisor (after verification), genesis and the pool's own replay may build one")
+}
+
+// acceptancePathRules: no block becomes a transaction without passing, in order, the block verifier,
+// the VM and the transaction verifier (shared by C03, C04, C01).
+func acceptancePathRules(r *Run) {
+	r.MustPass("vm.(*Supervisor).applyBlock", ".AccountBlock", "no block is executed or packed without passing the block verifier")
+	r.MustPass("vm.(*Supervisor).applyBlock", "vm.(*VM).applyBlock", "no transaction is produced without executing the block against its context")
+	r.MustPass("vm.(*Supervisor).applyBlock", "vm.(*Supervisor).packBlock", "the transaction handed out is the verified one")
+	r.MustPass("vm.(*Supervisor).packBlock", ".AccountBlockTransaction", "hash/signature/producer/descendant checks run on every transaction")
+	r.MustPass("vm.(*Supervisor).ApplyBlock", "vm.(*Supervisor).applyBlock", "ApplyBlock has no path around applyBlock")
 }
